@@ -143,7 +143,9 @@ class Gen:
                 ops += ['Inverse']
             ops += ['Determinant']
         if dtype == bool:
-            ops += ['Equal', 'Less', 'Greater', 'LogicalNot', 'leaf']
+            ops += ['Equal', 'Less', 'Greater', 'LogicalNot', 'leaf', 'Add', 'Multiply', 'Sum', 'Product']
+            if self.loops and len(self.loopstack) < 2:
+                ops += ['LoopSum']
         if self.allow is not None:
             ops = [o for o in ops if o in self.allow or o == 'leaf']
         return ops
@@ -195,8 +197,6 @@ class Gen:
         if n == 0 and any(dshape) or n == 0 and not dshape:
             dshape = (0,)
         func = self.array(dtype, shape[:-1] + dshape, depth-1)
-        if dtype == bool:
-            return None
         return ev.Inflate(func, self.index(dshape, n, depth-1), ev.constant(n))
 
     def mk_Ravel(self, dtype, shape, depth):
@@ -340,7 +340,7 @@ class Gen:
         self.loopstack.append((idx, n))
         try:
             body = self.array(dtype, shape, depth-1)
-            if self.rng.random() < .7:  # make the body depend on the index
+            if dtype != bool and self.rng.random() < .7:  # make the body depend on the index
                 w = idx if dtype == int else ev.IntToFloat(idx)
                 for k in shape:
                     w = ev.InsertAxis(w, ev.constant(k))
